@@ -103,24 +103,56 @@ type subMode struct {
 	kind string           // what the Subscribe resolver does
 	src  chan interface{} // the source channel for kind "stream"
 	val  evT              // for kind "value"
+	// selected: the subscription field the document selects. Only its Subscribe resolver hands out the source
+	// channel; the Subscribe resolver of any other field hands out the decoy (a stream nobody writes to), so a
+	// library that subscribes to the wrong field (e.g. looked up by alias) is noticed.
+	selected string
+	decoy    chan interface{}
 }
 
 var cur *subMode
 
-func subscribeFn(p graphql.ResolveParams) (interface{}, error) {
-	switch cur.kind {
-	case "stream":
-		return cur.src, nil
-	case "value":
-		return cur.val, nil
-	case "subNil":
-		return nil, nil
-	case "subPanicErr":
-		panic(errors.New("subscribe panicked"))
-	case "subPanicStr":
-		panic("subscribe panicked")
+func subscribeFor(name string) graphql.FieldResolveFn {
+	return func(p graphql.ResolveParams) (interface{}, error) {
+		switch cur.kind {
+		case "stream":
+			if name != cur.selected {
+				return cur.decoy, nil
+			}
+			return cur.src, nil
+		case "value":
+			return cur.val, nil
+		case "subNil":
+			return nil, nil
+		case "subPanicErr":
+			panic(errors.New("subscribe panicked"))
+		case "subPanicStr":
+			panic("subscribe panicked")
+		}
+		return nil, errors.New("cannot subscribe")
 	}
-	return nil, errors.New("cannot subscribe")
+}
+
+func tickResolve(p graphql.ResolveParams) (interface{}, error) {
+	e, ok := p.Source.(evT)
+	if code, special := classify(p.Source); !ok && special {
+		return evT{K: 0, N: code}, nil
+	}
+	if !ok {
+		return nil, fmt.Errorf("unexpected root value %T", p.Source)
+	}
+	if e.K == 1 {
+		return nil, errors.New("root failed")
+	}
+	return e, nil
+}
+
+// aliased: the request text with the root field `field` given the alias `alias`
+func aliased(query, field, alias string) string {
+	if alias == "" {
+		return query
+	}
+	return strings.Replace(query, "{ "+field, "{ "+alias+": "+field, 1)
 }
 
 // paintString: what the `paint` field resolves to: the event and the *internal* argument values the resolver saw
@@ -180,11 +212,11 @@ var varCases = []varCase{
 }
 
 // handExpected: the canonical result of one event of a varCase, computed without the library
-func handExpected(vc varCase, e [2]int) string {
+func handExpected(vc varCase, e [2]int, key string) string {
 	if e[0] == 1 {
-		return hx.Canon(map[string]interface{}{"data": map[string]interface{}{"paint": nil}, "errs": []errEntry{{Ctx: false, Path: []string{"paint"}}}})
+		return hx.Canon(map[string]interface{}{"data": map[string]interface{}{key: nil}, "errs": []errEntry{{Ctx: false, Path: []string{key}}}})
 	}
-	return hx.Canon(map[string]interface{}{"data": map[string]interface{}{"paint": paintString(e[1], vc.args)}, "errs": []errEntry{}})
+	return hx.Canon(map[string]interface{}{"data": map[string]interface{}{key: paintString(e[1], vc.args)}, "errs": []errEntry{}})
 }
 
 func buildSchema() graphql.Schema {
@@ -216,7 +248,7 @@ func buildSchema() graphql.Schema {
 					"colors": &graphql.ArgumentConfig{Type: graphql.NewList(colorEnum)},
 					"swaps":  &graphql.ArgumentConfig{Type: graphql.NewList(graphql.NewNonNull(swapEnum))},
 				},
-				Subscribe: subscribeFn,
+				Subscribe: subscribeFor("paint"),
 				Resolve: func(p graphql.ResolveParams) (interface{}, error) {
 					e, ok := p.Source.(evT)
 					if !ok {
@@ -228,22 +260,9 @@ func buildSchema() graphql.Schema {
 					return paintString(e.N, p.Args), nil
 				},
 			},
-			"tick": &graphql.Field{Type: tick,
-				Subscribe: subscribeFn,
-				Resolve: func(p graphql.ResolveParams) (interface{}, error) {
-					e, ok := p.Source.(evT)
-					if code, special := classify(p.Source); !ok && special {
-						return evT{K: 0, N: code}, nil
-					}
-					if !ok {
-						return nil, fmt.Errorf("unexpected root value %T", p.Source)
-					}
-					if e.K == 1 {
-						return nil, errors.New("root failed")
-					}
-					return e, nil
-				},
-			},
+			"tick": &graphql.Field{Type: tick, Subscribe: subscribeFor("tick"), Resolve: tickResolve},
+			// a second stream field, so that an alias can be the name of another subscription field
+			"tock":  &graphql.Field{Type: tick, Subscribe: subscribeFor("tock"), Resolve: tickResolve},
 			"nosub": &graphql.Field{Type: graphql.Int},
 		}}),
 	})
@@ -429,6 +448,7 @@ type caseT struct {
 	Finale   string   `json:"finale"`   // complete | cancel
 	Flip     bool     `json:"flip"`     // R: let the cancelling goroutine run before the receive
 	Vars     int      `json:"vars"`     // index into varCases (0 = the document without variables)
+	Alias    string   `json:"alias"`    // alias of the root field ("" = none): fresh, or the name of another subscription field
 }
 
 type observation struct {
@@ -494,13 +514,17 @@ func (r *runner) start() {
 	}
 	r.started = true
 	r.cancelBeforeStart = r.cancelled
-	cur = &subMode{kind: r.spec.sub, src: r.src, val: evT{K: 0, N: 7}}
+	cur = &subMode{kind: r.spec.sub, src: r.src, val: evT{K: 0, N: 7}, selected: "tick", decoy: make(chan interface{})}
 	if len(r.c.Events) > 0 {
 		cur.val = evT{K: r.c.Events[0][0], N: r.c.Events[0][1]}
 	}
 	query, vars := r.spec.query, map[string]interface{}(nil)
 	if r.c.Vars > 0 && r.spec.model == "stream" {
 		query, vars = varCases[r.c.Vars].query, varCases[r.c.Vars].vars
+		cur.selected = "paint"
+	}
+	if r.spec.model == "stream" {
+		query = aliased(query, cur.selected, r.c.Alias)
 	}
 	if r.c.Entry == "execute" && r.spec.model != "invalid" {
 		doc, err := parser.Parse(parser.ParseParams{Source: query})
@@ -969,7 +993,7 @@ func main() {
 	}
 	defer drv.Close()
 	schema := buildSchema()
-	run.Res.Rule = "schedules = sequences of harness intents (P produce next event, O offer next event in the background, D consumer receives, R receive racing with cancel, C cancel, X close source, W wait for the forwarder to leave, S consumer stops, Z consumer pauses) enumerated depth-first under the model's enabledness, then a finale (complete: deliver/produce everything, close the source; or cancel: cancel and give no consumer help); requests: stream with 0..4 events of 11 payload kinds (ok, root resolver fails, nullable leaf fails, non-null leaf null, and the closure look-alikes nil, empty map, typed nil pointer, false, 0, \"\", empty slice — each also swept over every position of sequences of 1..4 events); a quarter of the stream cases (plus a sweep) subscribe with variables whose coercion is not idempotent (enum with int internal values, enum whose internal values are names of other values, custom scalar that rewrites its value, input object and lists of these, defaults, provided values, literals) and compare every delivered result with graphql.Execute of the same selection on the event with the same raw variables, cross-checked by a hand-computed expectation, 9 one-shot failures inside the goroutine, non-channel value, parse and validation errors; entries graphql.Subscribe and ExecuteSubscription; the real run is recorded as model actions and validated by the compiled Lean model; non-trivial = the recorded run has >= 3 model actions (>= 1 for one-shot requests); distinct by (request, entry, events, intents, consumer, finale)"
+	run.Res.Rule = "schedules = sequences of harness intents (P produce next event, O offer next event in the background, D consumer receives, R receive racing with cancel, C cancel, X close source, W wait for the forwarder to leave, S consumer stops, Z consumer pauses) enumerated depth-first under the model's enabledness, then a finale (complete: deliver/produce everything, close the source; or cancel: cancel and give no consumer help); requests: stream with 0..4 events of 11 payload kinds (ok, root resolver fails, nullable leaf fails, non-null leaf null, and the closure look-alikes nil, empty map, typed nil pointer, false, 0, \"\", empty slice — each also swept over every position of sequences of 1..4 events); a quarter of the stream cases (plus a sweep) subscribe with variables whose coercion is not idempotent (enum with int internal values, enum whose internal values are names of other values, custom scalar that rewrites its value, input object and lists of these, defaults, provided values, literals) and compare every delivered result with graphql.Execute of the same selection on the event with the same raw variables, cross-checked by a hand-computed expectation; a quarter of the stream cases (plus a sweep) give the single root field an alias — fresh, or the name of another subscription field (tock, paint, nosub, tick), whose Subscribe resolver hands out a decoy stream — and the results must be keyed by the alias and follow the SELECTED field's stream, 9 one-shot failures inside the goroutine, non-channel value, parse and validation errors; entries graphql.Subscribe and ExecuteSubscription; the real run is recorded as model actions and validated by the compiled Lean model; non-trivial = the recorded run has >= 3 model actions (>= 1 for one-shot requests); distinct by (request, entry, events, intents, consumer, finale)"
 
 	one := func(c caseT) {
 		spec, okSpec := reqSpecs[c.Req]
@@ -982,13 +1006,20 @@ func main() {
 		// each delivered result), cross-checked with the hand-computed expectation
 		reference := []string{}
 		refFault := ""
+		key := "tick" // response key of the root field
+		if c.Vars > 0 {
+			key = "paint"
+		}
+		if c.Alias != "" && spec.model == "stream" {
+			key = c.Alias
+		}
 		if c.Vars > 0 && spec.model == "stream" {
 			if c.Vars >= len(varCases) {
 				run.CheckError("unknown variable case")
 				return
 			}
 			vc := varCases[c.Vars]
-			doc, err := parser.Parse(parser.ParseParams{Source: vc.query})
+			doc, err := parser.Parse(parser.ParseParams{Source: aliased(vc.query, "paint", c.Alias)})
 			if err != nil {
 				run.CheckError("variable case does not parse: " + err.Error())
 				return
@@ -996,7 +1027,7 @@ func main() {
 			for _, e := range c.Events {
 				ref := canonResult(graphql.Execute(graphql.ExecuteParams{Schema: schema, Root: mkEvent(e[0], e[1]), AST: doc, Args: vc.vars, Context: context.Background()}))
 				reference = append(reference, ref)
-				if hand := handExpected(vc, e); hand != ref && refFault == "" {
+				if hand := handExpected(vc, e, key); hand != ref && refFault == "" {
 					refFault = "graphql.Execute of the selection on the event with the raw variables gives " + ref + ", the independent expectation is " + hand
 				}
 			}
@@ -1060,7 +1091,7 @@ func main() {
 			req = map[string]interface{}{"kind": "oneShot", "r": res}
 		}
 		var m modelResp
-		if err := drv.Ask(map[string]interface{}{"req": req, "acts": trace, "expect": reference}, &m); err != nil {
+		if err := drv.Ask(map[string]interface{}{"req": req, "acts": trace, "expect": reference, "key": key}, &m); err != nil {
 			run.CheckError(err.Error())
 			r.cleanup()
 			return
@@ -1106,6 +1137,14 @@ func main() {
 		run.Case(hx.Canon(c), nontrivial, map[string]interface{}{"case": c, "trace": trace, "delivered": len(r.obs.Delivered)})
 
 		replay := map[string]interface{}{"case": c, "observed": r.obs, "model_trace": trace, "model": m, "reference": reference}
+		if c.Alias != "" && spec.model == "stream" {
+			if c.Alias == "t" || c.Alias == "p" {
+				run.Tag("alias:fresh")
+			} else {
+				run.Tag("alias:name-of-another-subscription-field")
+			}
+			replay["document"] = aliased(map[bool]string{false: streamQuery, true: varCases[c.Vars].query}[c.Vars > 0], map[bool]string{false: "tick", true: "paint"}[c.Vars > 0], c.Alias)
+		}
 		if c.Vars > 0 {
 			run.Tag(fmt.Sprintf("variables:case-%d", c.Vars))
 			replay["query"], replay["variables"] = varCases[c.Vars].query, varCases[c.Vars].vars
@@ -1135,6 +1174,9 @@ func main() {
 			bad = fmt.Sprintf("runtime.NumGoroutine() is %d above the baseline after settle", r.obs.Goroutines)
 		case c.Finale == "complete" && !m.Cancelled && spec.model == "stream" && !r.stopped && (!m.Terminal || len(r.obs.Delivered) != len(c.Events)):
 			bad = "a run to completion with a reading consumer and no cancellation did not deliver every event and close"
+		}
+		if bad != "" && c.Alias != "" && spec.model == "stream" {
+			bad += fmt.Sprintf("; the root field carries the alias %q (document in the replay): the subscription must follow the stream of the SELECTED field %q, whose Subscribe resolver alone hands out the source channel", c.Alias, cur.selected)
 		}
 		if bad != "" {
 			if strings.HasPrefix(bad, "harness fault") {
@@ -1309,6 +1351,33 @@ func main() {
 			}
 		}
 	}
+	// aliased root fields: fresh aliases and aliases that are the name of ANOTHER subscription field (with and
+	// without arguments / variables); the delivered sequence must be the mapped prefix of the SELECTED field's stream
+	for _, av := range []struct {
+		vars  int
+		alias string
+	}{{0, "t"}, {0, "tock"}, {0, "paint"}, {0, "nosub"}, {1, "p"}, {1, "tick"}, {1, "tock"}, {7, "p"}, {7, "tock"}, {9, "tick"}, {10, "nosub"}} {
+		for n := 0; n <= 3 && !run.TooManyViolations(); n++ {
+			for _, v := range []struct{ consumer, intents, finale string }{
+				{"prompt", "", "complete"},
+				{"slow", strings.Repeat("PD", n), "complete"},
+				{"slow", "PD", "cancel"},
+				{"stopped", "PS", "cancel"},
+			} {
+				for _, entry := range []string{"subscribe", "execute"} {
+					ev := make([][2]int, n)
+					for k := range ev {
+						ev[k] = [2]int{0, 30 + k}
+					}
+					if n == 3 {
+						ev[2][0] = 1
+					}
+					one(caseT{Req: "stream", Entry: entry, Events: ev, Intents: v.intents, Consumer: v.consumer, Finale: v.finale, Vars: av.vars, Alias: av.alias})
+					run.Tag("alias-sweep")
+				}
+			}
+		}
+	}
 	// every variable case with 1..3 events, run to completion (prompt / slow consumer), cancelled mid-stream, and
 	// with a consumer that stops
 	for vi := 1; vi < len(varCases) && !run.TooManyViolations(); vi++ {
@@ -1360,11 +1429,17 @@ func main() {
 					}
 					c.Events[k] = [2]int{kind, rg.Range(0, 99)}
 				}
+				if rg.Chance(1, 4) { // a quarter of the schedules alias the root field
+					c.Alias = []string{"t", "tock", "paint", "nosub", "tick"}[rg.Intn(5)]
+				}
 				if rg.Chance(1, 4) { // a quarter of the schedules run a subscription that takes variables
 					c.Vars = 1 + rg.Intn(len(varCases)-1)
 					for k := range c.Events {
 						c.Events[k][0] = rg.Intn(2) * rg.Intn(2) // kind 0, sometimes 1
 					}
+				}
+				if (c.Vars > 0 && c.Alias == "paint") || (c.Vars == 0 && c.Alias == "tick") {
+					c.Alias = "" // an alias equal to the field's own name is no alias
 				}
 				one(c)
 				idx++
